@@ -2,6 +2,7 @@
 //@harness c20_interval_u64 strength=complete bound="every u64 given as an integer scalar (full domain), loop-free" timeout=600 body=body_u64
 //@harness c20_interval_i64 strength=complete bound="every i64 given as an integer scalar (full domain), loop-free" timeout=600 body=body_i64
 //@harness c20_interval_units unwind=14 strength=bounded bound="<1-2 digits><0-1 space><one of the 14 unit names, each letter in either case><optional extra character from {s, S, x, space}>" timeout=3000 body=body_units
+//@harness c20_interval_year_limit unwind=12 strength=bounded bound="all 6-digit numbers followed by ' years' (the 100000-year limit has 6 digits)" timeout=3000 body=body_year_limit tier=thorough
 //@harness c20_interval_ascii4 unwind=7 strength=bounded bound="every ASCII string of <= 4 bytes" timeout=1500 body=body_ascii4
 #[cfg(any(kani, verif_replay))]
 #[allow(dead_code, unused)]
@@ -18,6 +19,9 @@ mod __verif_c20_int {
     impl std::error::Error for E {}
     impl serde::de::Error for E { fn custom<T: std::fmt::Display>(_m: T) -> Self { E } }
 
+    // the largest multiplier per unit for which the trigger's date arithmetic is defined (100 000 years; precondition of
+    // TimeTrigger::get_next_time, Verus unit c16_get_next_time): a literal beyond it "would overflow" and must be rejected
+    fn limit(kind: u8) -> i64 { let y: i64 = 100_000; match kind { 0 => y * 366 * 24 * 60 * 60, 1 => y * 366 * 24 * 60, 2 => y * 366 * 24, 3 => y * 366, 4 => y * 53, 5 => y * 12, _ => y } }
     fn same(r: &Result<TimeTriggerInterval, E>, kind: u8, n: i64) -> bool {
         match r {
             Ok(TimeTriggerInterval::Second(x)) => kind == 0 && *x == n,
@@ -35,15 +39,17 @@ mod __verif_c20_int {
         let d: U64Deserializer<E> = v.into_deserializer();
         let r = TimeTriggerInterval::deserialize(d);
         __verif_cover!("integer scalar above i64::MAX", v > i64::MAX as u64);
-        if v <= i64::MAX as u64 { __verif_ob!("visit_u64#post a bare number means seconds", same(&r, 0, v as i64)); }
-        else { __verif_ob!("visit_u64#post a value that does not fit is rejected, never wrapped", r.is_err()); }
+        __verif_cover!("integer scalar above the 100000-year limit", v > limit(0) as u64 && v <= i64::MAX as u64);
+        if v <= limit(0) as u64 { __verif_ob!("visit_u64#post a bare number means seconds", same(&r, 0, v as i64)); }
+        else { __verif_ob!("visit_u64#post a value whose use would overflow is rejected, never wrapped", r.is_err()); }
     }
     pub(crate) fn body_i64(src: &mut Src) {
         let v = src.i64();
         let d: I64Deserializer<E> = v.into_deserializer();
         let r = TimeTriggerInterval::deserialize(d);
         if v < 0 { __verif_ob!("visit_i64#post negative numbers are rejected", r.is_err()); }
-        else { __verif_ob!("visit_i64#post a bare number means seconds", same(&r, 0, v)); }
+        else if v <= limit(0) { __verif_ob!("visit_i64#post a bare number means seconds", same(&r, 0, v)); }
+        else { __verif_ob!("visit_i64#post a value whose use would overflow is rejected", r.is_err()); }
     }
     const NAMES: [&[u8]; 7] = [b"second", b"minute", b"hour", b"day", b"week", b"month", b"year"];
     pub(crate) fn body_units(src: &mut Src) {
@@ -71,6 +77,18 @@ mod __verif_c20_int {
         if valid { __verif_ob!("visit_str#post number x named unit, singular or plural, case-insensitive", same(&r, kind, num)); }
         else { __verif_ob!("visit_str#post unknown units are rejected", r.is_err()); }
     }
+    pub(crate) fn body_year_limit(src: &mut Src) {
+        let mut bytes = [0u8; 12]; let mut num: i64 = 0;
+        let mut i = 0;
+        while i < 6 { let d = src.u8(); assume(d < 10); bytes[i] = b'0' + d; num = num * 10 + d as i64; i += 1; }
+        let u = b" years"; let mut j = 0; while j < 6 { bytes[6 + j] = u[j]; j += 1; }
+        let s = unsafe { std::str::from_utf8_unchecked(&bytes[..12]) };
+        let d: StrDeserializer<E> = s.into_deserializer();
+        let r = TimeTriggerInterval::deserialize(d);
+        __verif_cover!("just above the limit", num == 100001);
+        if num <= limit(6) { __verif_ob!("visit_str#post an interval within the limit parses to number x unit", same(&r, 6, num)); }
+        else { __verif_ob!("visit_str#post an interval whose use would overflow is rejected", r.is_err()); }
+    }
     pub(crate) fn body_ascii4(src: &mut Src) {
         let n = src.u8() as usize; assume(n <= 4);
         let bytes = [src.u8(), src.u8(), src.u8(), src.u8()];
@@ -90,5 +108,6 @@ mod __verif_c20_int {
     #[cfg(kani)] #[kani::proof] fn c20_interval_u64() { let mut s = Src::new(); body_u64(&mut s); }
     #[cfg(kani)] #[kani::proof] fn c20_interval_i64() { let mut s = Src::new(); body_i64(&mut s); }
     #[cfg(kani)] #[kani::proof] #[kani::unwind(14)] fn c20_interval_units() { let mut s = Src::new(); body_units(&mut s); }
+    #[cfg(kani)] #[kani::proof] #[kani::unwind(12)] fn c20_interval_year_limit() { let mut s = Src::new(); body_year_limit(&mut s); }
     #[cfg(kani)] #[kani::proof] #[kani::unwind(7)] fn c20_interval_ascii4() { let mut s = Src::new(); body_ascii4(&mut s); }
 }
